@@ -386,6 +386,52 @@ def make_scanedge_workload(seed):
     return "\n".join(lines) + "\n", pre, {"shape": "scanedge/" + scen, "threads": nthreads, "kind": "scanedge"}
 
 
+def make_nodeset_scenario(seed):
+    """one scenario for the Proto/NodeSet correspondence: (scheddrv workload, model lines).
+    1-3 borders (preloaded ascending or shuffled, so that the model's own split rule builds the same
+    chain), one scan, 1-2 writers inserting 1-2 fresh keys each (sometimes into a full border)."""
+    r = random.Random("nodeset/%d" % seed)
+    npre = r.choice([3, 14, 15, 15, 22, 30, 31])
+    pre_keys = [10 * (i + 1) for i in range(npre)]
+    order = list(pre_keys)
+    if r.random() < 0.4:
+        r.shuffle(order)
+    lines = ["storage 61", "bg 0"]
+    model = ["cap 15"]
+    for i in range(0, len(order), 10):
+        model.append("pre " + " ".join(str(k) for k in order[i:i + 10]))
+    for k in order:
+        lines.append("pre put %s %s" % (hx(b"k%04d" % k), hx(b"p%04d" % k)))
+    lo, hi = 0, 10 * npre + 9
+    if r.random() < 0.5:
+        a, b = lo, hi + 100
+    else:
+        a = r.randrange(lo, hi // 2 + 1)
+        b = r.randrange(hi // 2 + 1, hi + 20)
+    fresh = set()
+    nw = r.choice([1, 1, 2])
+    writers = []
+    for w in range(nw):
+        ks = []
+        for _ in range(r.choice([1, 2])):
+            while True:
+                k = r.randrange(1, hi + 15)
+                if k % 10 != 0 and k not in fresh:
+                    break
+            fresh.add(k)
+            ks.append(k)
+        writers.append(ks)
+    model.append("scan %d %d" % (a, b))
+    lines += ["thread 0", "op scan %s I %s I 0 0" % (hx(b"k%04d" % a), hx(b"k%04d" % b))]
+    for t, ks in enumerate(writers, 1):
+        model.append("writer " + " ".join(str(k) for k in ks))
+        lines.append("thread %d" % t)
+        for k in ks:
+            lines.append("op put %s %s 0" % (hx(b"k%04d" % k), hx(b"w%04d" % k)))
+    model.append("go")
+    return "\n".join(lines) + "\n", model
+
+
 def make_leaf_scenario(seed):
     """one scenario for the Proto/Leaf correspondence: (scheddrv workload, model lines, nops per thread).
     A single border node (no split: at most 6 preloaded keys + at most 6 inserts), 2-3 threads with
